@@ -56,7 +56,10 @@ def boundary_programs():
         setup = [R("RPUSH", S("kl"), *vals)] if size else []
         reqs = [R("LRANGE", S("kl"), I(a), I(b)) for a in idx for b in idx] + [R("LINDEX", S("kl"), I(a)) for a in idx]
         reqs += [R("LRANGE", S("kl"), x, y) for x in big for y in big] + [R("LINDEX", S("kl"), x) for x in big]
-        reqs += [R(c, S("kl"), I(n)) for c in ("LPOP", "RPOP") for n in (-1, 0, size + 1)] + [R("LPOP", S("kl"), big[0]), R("RPOP", S("kl"), big[1])]
+        # pops change the state: each one runs against a freshly rebuilt list (a step of several requests)
+        fresh = [R("DEL", S("kl"))] + ([R("RPUSH", S("kl"), *vals)] if size else [])
+        reqs += [fresh + [R(c, S("kl"), n)] for c in ("LPOP", "RPOP") for n in [I(-1), I(0), I(1), I(size), I(size + 1)] + big]
+        reqs += [fresh + [R(c, S("kl"), I(2)), R(c, S("kl"), big[0]), R("LLEN", S("kl"))] for c in ("LPOP", "RPOP")]
         out.append((setup, reqs))
         # sorted sets
         setup = [R("ZADD", S("kz"), *[x for i, v in enumerate(vals) for x in (I(i + 1), v)])] if size else []
@@ -112,7 +115,8 @@ def run(ctx):
             nb += len(reqs)
             for i in range(0, len(reqs), 16):
                 for handler in ("example", "ref"):
-                    scenarios.append(with_witness([{"op": "send", "chunking": "perreq", "reqs": [r]} for r in reqs[i:i + 16]], handler, setup))
+                    scenarios.append(with_witness([{"op": "send", "chunking": "perreq", "reqs": r if isinstance(r, list) else [r]}
+                                                   for r in reqs[i:i + 16]], handler, setup))
         counts["boundary_requests"] = nb
         # (3) malformed / empty / null / nested frames and arbitrary short byte strings; disconnects at arbitrary points
         raws = short_strings(4 if thorough else 3)
